@@ -144,6 +144,12 @@ impl Ctx {
         }
     }
 
+    /// long-running fuzz processes: keep the bookkeeping bounded
+    pub fn reset_counters_if_large(&mut self) {
+        if self.nontrivial.len() > 200_000 {
+            self.nontrivial.clear();
+        }
+    }
     pub fn eval(&mut self) {
         if !self.frozen {
             self.evaluations += 1;
